@@ -137,3 +137,32 @@ func runTransparency(cfg Config, args []string) int {
 	}
 	return 0
 }
+
+// runWorldDump materialises CLI world number VERIF_ONLY of property VERIF_PROP
+// (same construction as the check uses) under VERIF_DUMPDIR. Development aid.
+func runWorldDump(cfg Config, args []string) int {
+	prop := envOr("VERIF_PROP", "C12")
+	var idx int
+	fmt.Sscanf(cfg.Only, "%d", &idx)
+	var worlds []*sim.WorldSpec
+	switch prop {
+	case "C12":
+		worlds, _ = BuildWorlds(cfg, "C12", cfg.N(3, 16), cfg.N(5, 44), 20, false, 3)
+	case "C13":
+		worlds, _ = BuildWorlds(cfg, "C13", cfg.N(6, 16), cfg.N(50, 400), 25, true, 0)
+	case "C15":
+		worlds, _ = BuildWorlds(cfg, "C15", cfg.N(5, 16), cfg.N(9, 44), 35, false, 0)
+	case "C18":
+		worlds, _ = BuildWorlds(cfg, "C18", cfg.N(2, 6), cfg.N(3, 10), 0, false, 0)
+	}
+	for i, w := range worlds {
+		fmt.Printf("%d %s setup=%s expect=%s features=%v\n", i, w.Name, w.Setup, w.Expect, w.Features)
+	}
+	if idx < len(worlds) {
+		dir := envOr("VERIF_DUMPDIR", "/tmp/worlddump")
+		os.RemoveAll(dir)
+		worlds[idx].Materialize(dir)
+		fmt.Println("materialised", idx, "at", dir)
+	}
+	return 0
+}
